@@ -38,13 +38,13 @@ RULE = ('cases: (a) agent collectors: seeded runs of 30 timesteps with a populat
         'records held in between and an empty collection (b); distinct by the run signature.')
 ASSUMPTIONS = ['file clause checked for the default clear_records_on_write=True and filemode "a" (the property\'s wording)',
                'per-agent / composite functions are pure', 'os._exit after step t stands for a crash between timesteps']
-FLOORS = {'quick': {'agents_rejoining_as_the_same_object': 1609, 'busy_rounds_between_two_collections': 1726, 'file_collectors_with_their_own_write_records': 53, 'second_collector_comparisons': 1790, 'runs_with_a_second_collector_using_the_same_functions': 59, 'file_collector_runs_with_a_raising_log_handler': 40, 'runs_continued_on_a_deep_copy_of_the_model': 37, 'collections_interrupted': 138, 'collection_passes_failing_half_way': 168, 'nested_models_run_inside_a_collection': 427, 'environment_installed_after_collector': 70, 'agent_steps': 10000, 'records_compared': 5000, 'empty_records_skipped': 324, 'unscheduled_steps': 2000,
+FLOORS = {'quick': {'agents_rejoining_as_the_same_object': 1609, 'busy_rounds_between_two_collections': 1726, 'file_collectors_with_their_own_write_records': 53, 'second_collector_comparisons': 1790, 'runs_with_a_second_collector_using_the_same_functions': 59, 'file_collector_runs_with_a_raising_log_handler': 40, 'runs_continued_on_a_deep_copy_of_the_model': 37, 'collections_interrupted': 138, 'collection_passes_failing_half_way': 161, 'nested_models_run_inside_a_collection': 427, 'environment_installed_after_collector': 70, 'agent_steps': 10000, 'records_compared': 5000, 'empty_records_skipped': 324, 'unscheduled_steps': 2000,
                     'mid_step_population_changes': 2000, 'composite_none': 1000, 'composite_dict': 1000, 'shared_composite_dict_calls': 1000, 'history_unchanged_checks': 8000,
                     'file_steps': 4900, 'flushes': 1500, 'conservation_checks': 4900, 'empty_collections': 712, 'opens_observed': 1500,
                     'killed_children': 14, 'default_priority_runs': 200, 'big_many_systems_runs': 4, 'big_flush_batches': 4, 'collectors_attached_late': 100, 'late_collector_twin_runs': 100,
                     'reach:Collectors.AgentCollector.collect': 6500, 'reach:Collectors.FileCollector.execute': 4100,
-                    'reach:Collectors.FileCollector.write_records': 1706},
-          'thorough': {'agent_steps': 750000, 'file_steps': 300000, 'killed_children': 969}}
+                    'reach:Collectors.FileCollector.write_records': 1665},
+          'thorough': {'agent_steps': 750000, 'file_steps': 300000, 'killed_children': 960}}
 EXHAUSTIVE = {}
 
 OPENS = {}
